@@ -109,6 +109,8 @@ def native_loops(w=None):
             for src, ctx, want, needs in LOOP_CASES:
                 if want is None or (needs and not ext):
                     continue
+                if needs and "{% else %}" in src and w and w.get("clause") not in (None, "else"):
+                    continue  # break/continue + else is C07.emit.else's business (F11); other clauses are replayed without it
                 got = _render(env, src, **ctx)
                 if got != want:
                     problems.append(f"{src!r} with {ctx!r} (async={is_async}) renders {got!r}, documented {want!r}")
@@ -362,7 +364,7 @@ def pred_else(a):
     body_frs = a.frame_of_visits("node.body[")
     if len(frs) != 1 or not a.is_inner_of_outer(frs[0]) or frs[0] in body_frs or not a.analysed(frs[0], "else"):
         fails.append("the else body is not compiled in its own frame (inner frame of the enclosing one, analysed for branch 'else')")
-    elif a.recursive and a.sc.st.get(frs[0]).fields.get("buffer") != a.sc.st.get(a.loop_frame()).fields.get("buffer") if a.loop_frame() is not None else False:
+    elif a.recursive and a.loop_frame() is not None and a.st.get(frs[0]).fields.get("buffer") != a.st.get(a.loop_frame()).fields.get("buffer"):
         fails.append("the else branch of a recursive loop does not write to the loop function's buffer")
     return fails
 
@@ -546,8 +548,6 @@ def pred_recursive(a):
     if not a.recursive:
         if a.loop_fn is not None or any(isinstance(n, ast.Name) and n.id in ("reciter", "loop_render_func") for n in ast.walk(a.tree)):
             fails.append("recursive machinery emitted for a non-recursive loop")
-        if not isinstance(a.loop, ast.AsyncFor) is not bool(a.is_async):
-            pass
         if isinstance(a.loop, ast.AsyncFor) is not bool(a.is_async):
             fails.append("the loop statement is async iff the environment is")
         return fails
@@ -753,10 +753,37 @@ class VisitName(VC):
     posts = [("load_of_wanted_name_reported_nothing_else_lost", p_reports), ("stops_only_when_all_found", p_exit)]
 
     def concretize(self, model, pre, out):
-        return {"vc": "visit_Name", "name": str(model.eval(self.nm.t, model_completion=True)), "ctx": str(model.eval(self.ctx.t, model_completion=True))}
+        return {"vc": "visit_Name", "name": model_value(model, self.nm.t), "ctx": model_value(model, self.ctx.t)}
 
     def replay(self, w):
-        return differential(w)
+        return replay_visit_name(w)
+
+
+def replay_visit_name(w=None):
+    """Native replay of visit_Name: the real method on small visitor states around the witness's (name, ctx)."""
+    w = w or {}
+    nm = w.get("name") or "loop"
+    problems = []
+    for ctx in dict.fromkeys([w.get("ctx") or "load", "load", "store", "param", ""]):
+        for names in ({nm}, {nm, "z"}, {"z"}, set()):
+            for und in (set(), {"z"} & names, {nm} & names):
+                v = C.UndeclaredNameVisitor(names)
+                v.undeclared = set(und)
+                hit = ctx == "load" and nm in names
+                want_n = set(names) if hit else set(names) - {nm}
+                want_u = set(und) | {nm} if hit else set(und)
+                try:
+                    v.visit_Name(N.Name(nm, ctx))
+                    stopped = False
+                except C.VisitorExit:
+                    stopped = True
+                except Exception as ex:  # noqa
+                    problems.append(f"visit_Name(Name({nm!r}, {ctx!r})) with names={sorted(names)} raised {type(ex).__name__}")
+                    continue
+                if (v.names, v.undeclared) != (want_n, want_u) or (stopped and not want_n <= want_u):
+                    problems.append(f"visit_Name(Name({nm!r}, {ctx!r})) with names={sorted(names)} undeclared={sorted(und)}: names'={sorted(v.names)} "
+                                    f"undeclared'={sorted(v.undeclared)} stopped={stopped}; specification names'={sorted(want_n)} undeclared'={sorted(want_u)}")
+    return (bool(problems), "; ".join(problems[:3]) or "visit_Name agrees with its specification on the small visitor states")
 
 
 class VisitBlock(VC):
@@ -802,7 +829,9 @@ class FindUndeclaredDriver(VC):
 
     def configure(self, I):
         I.inline.add("jinja2.compiler:UndeclaredNameVisitor.__init__")
-        I.specs["NodeVisitor.visit"] = A.abstract_fn("visit", returns=None, raises=[C.VisitorExit, ("any", Exception)])
+        # the walk may stop with VisitorExit, or fail with a foreign exception (two concrete classes: VisitorExit's own base
+        # RuntimeError, and an unrelated one) which must propagate
+        I.specs["NodeVisitor.visit"] = A.abstract_fn("visit", returns=None, raises=[C.VisitorExit, RuntimeError, KeyError])
 
     def setup(self, I, st):
         self.nodes = (sym("node0", "obj"), sym("node1", "obj"), sym("node2", "obj"))
@@ -832,9 +861,8 @@ class FindUndeclaredDriver(VC):
             # only a foreign exception of the walk propagates
             return raised[-1] and getattr(calls[-1].result, "tag", 0) == getattr(out.value, "tag", 1) and out.value.cls is not C.VisitorExit
         if raised[-1]:
-            # an arbitrary exception of the walk may itself be a VisitorExit (cls None = some subclass of Exception)
-            if calls[-1].result.cls not in (C.VisitorExit, None):
-                return False
+            if calls[-1].result.cls is not C.VisitorExit:
+                return False  # a foreign exception of the walk was swallowed
         elif len(seen) != len(self.nodes):
             return False
         return out.value == f["undeclared"]
@@ -845,7 +873,40 @@ class FindUndeclaredDriver(VC):
         return {"vc": "driver"}
 
     def replay(self, w):
-        return differential(w)
+        return replay_driver(w)
+
+
+def replay_driver(w=None):
+    """Native replay of find_undeclared's driver loop: all nodes are visited in order, VisitorExit ends the walk, any other
+    exception of the walk propagates."""
+    problems = []
+
+    class Boom:
+        def __init__(self, exc):
+            self.exc = exc
+
+        def iter_child_nodes(self, *a, **k):
+            raise self.exc("walk failed")
+
+    out = lambda n: N.Output([_name(n)])  # noqa: E731
+    for nodes, names, want in (([out("other"), out("loop")], ("loop",), {"loop"}), ([out("loop"), out("other"), out("x")], ("loop", "other"), {"loop", "other"}),
+                               ([out("a"), out("b"), out("c")], ("c", "zz"), {"c"}), ([], ("loop",), set())):
+        try:
+            got = C.find_undeclared(nodes, names)
+        except Exception as ex:  # noqa
+            problems.append(f"find_undeclared over {len(nodes)} outputs raised {type(ex).__name__}")
+            continue
+        if set(got) != want:
+            problems.append(f"find_undeclared({[x.nodes[0].name for x in nodes]}, {names}) reports {sorted(got)}, specification {sorted(want)}")
+    for exc in (RuntimeError, KeyError):
+        try:
+            got = C.find_undeclared([out("other"), Boom(exc), out("loop")], ("loop",))
+            problems.append(f"a {exc.__name__} raised by the walk was swallowed (report {sorted(got)})")
+        except exc:
+            pass
+        except Exception as ex:  # noqa
+            problems.append(f"{exc.__name__} of the walk surfaced as {type(ex).__name__}")
+    return (bool(problems), "; ".join(problems[:3]) or "find_undeclared visits all nodes in order and lets foreign exceptions through")
 
 
 class DependencyAdd(VC):
@@ -985,6 +1046,20 @@ def _compound(children, shallow, depth_tag):
         for (en, e) in children:
             out.append((f"If(test=1,body=[{bn}],else=[{en}])", lambda b=b, e=e: N.If(ex[1](), [b()], [], [e()])))
             out.append((f"If(test=1,body=[{bn}],elif=[If(body=[{en}])])", lambda b=b, e=e: N.If(ex[1](), [b()], [N.If(ex[1](), [e()], [], [])], [])))
+    # lists with two statements / two expressions (a walk that only looks at the first or the last element of a list)
+    other = lambda: N.Output([_name("other")])  # noqa: E731
+    for (bn, b) in children:
+        out.append((f"For(iter=1,body=[Output(1),{bn}],else=[-],test=-1)", lambda b=b: N.For(_name("x", "store"), ex[1](), [other(), b()], [], None, False)))
+        out.append((f"For(iter=1,body=[{bn},Output(1)],else=[-],test=-1)", lambda b=b: N.For(_name("x", "store"), ex[1](), [b(), other()], [], None, False)))
+        out.append((f"For(iter=1,body=[Output(1)],else=[Output(1),{bn}],test=-1)", lambda b=b: N.For(_name("x", "store"), ex[1](), [other()], [other(), b()], None, False)))
+        out.append((f"If(test=1,body=[Output(1),{bn}],else=[-])", lambda b=b: N.If(ex[1](), [other(), b()], [], [])))
+        out.append((f"If(test=1,body=[Output(1)],elif=[If(body=[Output(1)]),If(body=[{bn}])])",
+                    lambda b=b: N.If(ex[1](), [other()], [N.If(ex[1](), [other()], [], []), N.If(ex[1](), [b()], [], [])], [])))
+        out.append((f"Macro(body=[Output(1),{bn}])", lambda b=b: N.Macro("m", [_name("a", "param")], [], [other(), b()])))
+    if depth_tag == 2:
+        for i, e1 in enumerate(ex):
+            for j, e2 in enumerate(ex):
+                out.append((f"Output({i},{j})", lambda e1=e1, e2=e2: N.Output([e1(), e2()])))
     for (bn, b) in children:
         for scoped in (False, True):
             out.append((f"Block(scoped={scoped},body=[{bn}])", lambda b=b, scoped=scoped: N.Block("blk", [b()], scoped, False)))
@@ -1143,7 +1218,22 @@ def native_else(w=None):
     return native_loops(w)
 
 
+def loopcontrol_pred(word):
+    def pred(sc, tree, ph, txt):
+        if sc.outcome == "raise":
+            return [f"raises {sc.value!r}"]
+        lines = [ln.strip() for ln in txt.splitlines() if ln.strip()]
+        return [] if lines == [word] else [f"{{% {word} %}} is compiled to {txt!r} instead of the python statement `{word}` (which leaves the loop body "
+                                           "at that point: what the else / iteration obligations assume)"]
+    return pred
+
+
 TASKS = FOR_TASKS + [
+    EmitTask(PROP, "C07.emit.visit_Continue", "jinja2.compiler:CodeGenerator.visit_Continue", N.Continue, loopcontrol_pred("continue"), mode="raw",
+             buffers=(None, "t_buf"), replay_fn=native_loops),
+    EmitTask(PROP, "C07.emit.visit_Break", "jinja2.compiler:CodeGenerator.visit_Break", N.Break, loopcontrol_pred("break"), mode="raw",
+             buffers=(None, "t_buf"), replay_fn=native_loops),
+
     VisitName(), VisitBlock("UndeclaredNameVisitor"), VisitBlock("DependencyFinderVisitor"), FindUndeclaredDriver(),
     DependencyAdd("Filter"), DependencyAdd("Test"),
     FnTask(PROP, "C07.find_undeclared.table", visitor_table, "table", differential),
